@@ -458,6 +458,8 @@ def spaces(tier, seed):
                     for meta in ("mono", "rgb"):
                         level0.append({"sp": "l0", "kind": kind, "method": method, "ctx": ctx, "given": given,
                                        "meta": meta})
+    level0h = [{"sp": "l0h", "kind": kind, "method": method, "meta": meta}
+               for kind in KINDS for method in T.TABLE[kind]["methods"] for meta in ("mono", "rgb")]
     level1 = []
     for kind in KINDS:
         for method in T.TABLE[kind]["methods"]:
@@ -518,6 +520,8 @@ def spaces(tier, seed):
                     files.append({"sp": "files", "form": form, "img": img, "kind": kind, "method": method})
     return [
         {"name": "base pipelines (omitted / written-out defaults) x metadata", "level": 0, "cases": level0, "chunk": 8},
+        {"name": "defaults after a check of the same step with every parameter at an accepted non-default value",
+         "level": 1, "cases": level0h, "chunk": 4},
         {"name": "one parameter off its default: every table value", "level": 1, "cases": level1, "chunk": 4},
         {"name": "band x image metadata (mono, rgb, multi-character names, left/right differ)", "level": 1,
          "cases": bands, "chunk": 4},
@@ -544,6 +548,30 @@ def _run_l0(case, viol, sigs):
         n += 1
     entries_agree(steps, case["meta"], f"{case['kind']}.{case['method']}", viol)
     return n, n
+
+
+def _run_l0h(case, viol, sigs):
+    """
+    defaults after a history: the same process first checks the step with EVERY parameter written out at an accepted
+    non-default value (a fresh machine, another pipeline object), then checks it with the parameters omitted: the
+    documented defaults must appear, whatever an earlier object of the class was configured with
+    """
+    kind, method = case["kind"], case["method"]
+    steps, idx = context(kind, method, "min", False)
+    for param, spec in T.method_params(kind, method).items():
+        if param in ("band", "step", "indicator") or "default" not in spec:
+            continue
+        alt = [v for v, st in spec["values"] if st == "A" and not same(v, spec["default"])]
+        if alt:
+            steps = set_param(steps, idx, param, alt[0])
+    steps = band_fix(steps, case["meta"])
+    real_check("section", steps, case["meta"])  # the verdict of the priming check is judged by the level-1 space
+    n, t = _run_l0(dict(case, ctx="min", given=0), viol, sigs)
+    for v in viol:
+        if not v["key"].endswith("/after explicit non-default values"):
+            v["key"] += "/after explicit non-default values"
+    sigs[:] = ["h|" + x for x in sigs]
+    return n + 1, 0
 
 
 def _dev(kind, method, param, value, status, cls=""):
@@ -864,7 +892,7 @@ def _run_files(case, viol, sigs):
     return n, 0
 
 
-RUNNERS = {"l0": _run_l0, "l1": _run_l1, "band": _run_band, "l2": _run_l2, "hist-mc": _run_hist_mc,
+RUNNERS = {"l0h": _run_l0h, "l0": _run_l0, "l1": _run_l1, "band": _run_band, "l2": _run_l2, "hist-mc": _run_hist_mc,
            "hist-in": _run_hist_in, "files": _run_files}
 
 
